@@ -375,6 +375,48 @@ func Run(r *ev.Run) {
 		}
 	}
 
+	// ---- 3a'. parsing is a function of the bytes given NOW: a config parsed from a buffer that is afterwards reused for another
+	// config must not influence a later parse of an equal config held elsewhere; and what Bytes/NewConfig returned earlier stays
+	// intact when more configs are produced (configs of every size 490..530 bytes, which needs long keys) ----
+	{
+		a := mk(11, "first.example", sl[0])
+		bcfg := mk(12, "second-name.example", sl[5])
+		buf := append([]byte{}, a...)
+		sa, err1 := ech.Config(buf).Spec()
+		wantA := fmt.Sprintf("%d %x %s %v", sa.ID, sa.PublicKey, sa.PublicName, sa.CipherSuites)
+		copy(buf, bcfg) // the caller reuses its buffer (same length or not)
+		for i := len(bcfg); i < len(buf); i++ {
+			buf[i] = 0xEE
+		}
+		sa2, err2 := ech.Config(append([]byte{}, a...)).Spec()
+		if gotA := fmt.Sprintf("%d %x %s %v", sa2.ID, sa2.PublicKey, sa2.PublicName, sa2.CipherSuites); err1 != nil || err2 != nil || gotA != wantA {
+			r.Violation("spec-depends-on-earlier-parse", fmt.Sprintf("Spec() of a config returns %s after an equal config had been parsed from a buffer that was then overwritten; the bytes say %s (%v %v)", gotA, wantA, err1, err2), nil)
+		}
+		r.Eval("spec-after-buffer-reuse", "ok")
+		var kept []ech.Config
+		var keptCopy [][]byte
+		for total := 490; total <= 530; total++ {
+			keyLen := total - 15 - 4*len(sl[0]) - len("size.example")
+			spec := ech.ConfigSpec{Version: 0xfe0d, ID: 77, KEM: 0x20, PublicKey: tlsref.DetBytes("longkey", keyLen), CipherSuites: sl[0], PublicName: []byte("size.example")}
+			c, err := spec.Bytes()
+			if err != nil {
+				continue
+			}
+			kept = append(kept, c)
+			keptCopy = append(keptCopy, append([]byte{}, c...))
+			if _, c2, err := ech.NewConfig(uint8(total), []byte("interleaved.example")); err == nil {
+				kept = append(kept, c2)
+				keptCopy = append(keptCopy, append([]byte{}, c2...))
+			}
+		}
+		for i := range kept {
+			if !bytes.Equal(kept[i], keptCopy[i]) {
+				r.Violation("earlier-output-overwritten", fmt.Sprintf("a %d-byte config returned earlier by ConfigSpec.Bytes/NewConfig has changed after later calls (outputs share memory)", len(keptCopy[i])), len(keptCopy[i]))
+				break
+			}
+		}
+		r.Eval("outputs-retained", fmt.Sprintf("ok %d", len(kept)))
+	}
 	// ---- 3c. the specs returned by ParseConfigList are independent values: appending to one's CipherSuites PublicName or PublicKey
 	// leaves the others as parsed (whether the specs alias the INPUT bytes is not the property's business) ----
 	{
